@@ -292,6 +292,9 @@ def build_corpus(seed: int, n_templates: int, max_bytes: int) -> List[Dict[str, 
     docs.append(("empty", ""))
     docs.append(("only-comment", "// nothing here\n"))
     docs.append(("blank-lines", "\n\n  \n\t\n"))
+    # comment-only documents whose whole text happens to be an existing path
+    docs.append(("comment-slashes", "//"))
+    docs.append(("comment-tmp", "//tmp"))
     base = [d for d in docs if "~" not in d[0]]
     for name, text in base:
         vs = failing_variants(rng, name, text)
